@@ -167,6 +167,16 @@ class Engine(StmtMixin):
         that is a candidate witness; it only counts after native replay."""
         from .core import _abstract_quant
 
+        saved_reveal = self.speclib.revealed
+        self.speclib.revealed = set(self.speclib.opaque)  # candidates should satisfy the well-formedness predicates too
+        try:
+            return self._refute(forms, known, timeout_ms, bound)
+        finally:
+            self.speclib.revealed = saved_reveal
+
+    def _refute(self, forms, known, timeout_ms, bound):
+        from .core import _abstract_quant
+
         # cheapest candidate: quantified subformulas abstracted by Boolean constants
         s0 = z3.Solver()
         s0.set("timeout", int(min(timeout_ms, 3000)))
